@@ -19,6 +19,9 @@ from ..core import CaseTimeout, err_class, listlit, natlist, natlit, pmap, with_
 IMPORTS = PL.IMPORTS
 
 
+BIG_TOO_SLOW = {"EpistemicUncertaintySampling[precompute]", "Quire", "CoreSet", "Badge", "RegressionTreeBasedAL[diversity]"}
+
+
 def make_loop(seed_tuple, eidx, big=False):
     rng = np.random.default_rng(list(seed_tuple))
     E = PL._entries()[eidx]
@@ -39,7 +42,7 @@ def make_loop(seed_tuple, eidx, big=False):
     b = int(rng.choice([1, 2, 3, 5])) if not big else int(rng.choice([15, 20, 25]))
     if E.max_bs:
         b = min(b, E.max_bs)
-    return {"eidx": eidx, "name": E.name, "X": X, "y": y, "y_true": y_true, "classes": classes, "b": b,
+    return {"big": big, "eidx": eidx, "name": E.name, "X": X, "y": y, "y_true": y_true, "classes": classes, "b": b,
             "seed": int(rng.integers(0, 1000)), "labeling": labeling, "oracle": oracle}
 
 
@@ -92,7 +95,8 @@ def run(ctx):
     for ei, E in enumerate(entries):
         for h in range(((2 if E.slow else 10) if E.variant else (3 if E.slow else 40)) if ctx.is_quick else (15 if E.slow else 300)):
             loops.append(make_loop((ctx.seed, ei, h, 1414), ei))
-        if not E.slow and not E.variant and not E.max_bs:
+        # (measured: these need 10-55 s per big loop here and several times that on a slower machine - the small pools cover them)
+        if not E.slow and not E.variant and not E.max_bs and E.name not in BIG_TOO_SLOW:
             for h in range(1 if ctx.is_quick else 4):
                 loops.append(make_loop((ctx.seed, ei, h, 1415), ei, big=True))
     outs = pmap(_run_loop, loops, chunksize=1)
@@ -105,6 +109,9 @@ def run(ctx):
             ctx.nontriv((E.name, lp["seed"], lp["b"], lp["X"].tobytes(), lp["y"].tobytes()))
         rc = {"strategy": E.name, "X": lp["X"].tolist(), "y": [None if np.isnan(v) else float(v) for v in lp["y"]],
               "y_true": lp["y_true"].tolist(), "classes": lp["classes"], "batch_size": lp["b"], "seed": lp["seed"], "batches": out["batches"]}
+        if out["status"] == "timeout" and lp.get("big"):
+            ctx.count("big_pool_loop_not_finished_in_time_(not_judged)")       # a resource limit of the harness: every loop is bounded by ceil(u/b)+2 cycles
+            continue
         if out["status"] == "timeout":
             ctx.violation(E.name, "timeout", "loop did not finish", rc, what=f"{E.name}: active-learning loop did not terminate in time")
             continue
